@@ -346,6 +346,32 @@ impl Drop for Trk {
     }
 }
 
+/// Tracked value in an over-aligned cell (alignment beyond what the allocator's `realloc` fast
+/// paths guarantee): growth of such a column must still move every element intact.
+#[derive(Debug, PartialEq, Clone)]
+#[repr(align(64))]
+pub struct TrkA(pub Trk);
+impl Stamp for TrkA {
+    const MASK: u64 = u64::MAX;
+    const TRACKED: bool = true;
+    fn mk(v: u64) -> Self {
+        TrkA(Trk::mk(v))
+    }
+    fn get(&self) -> u64 {
+        if (self as *const Self as usize) % 64 == 0 {
+            self.0.get()
+        } else {
+            GARBAGE
+        }
+    }
+    fn set(&mut self, v: u64) {
+        self.0.set(v)
+    }
+    fn trk(&self) -> u64 {
+        self.0.trk()
+    }
+}
+
 /// Zero-sized tracked value: only a live counter can be kept.
 #[derive(Debug, PartialEq)]
 pub struct Ztrk;
